@@ -232,3 +232,46 @@ pub fn zst(lines: Vec<String>) -> Vec<String> {
         .collect()
 }
 
+/// a hub of high degree (past the thresholds 16, 32, 64 that "fast paths" like to use) with two-way neighbours,
+/// parallel edges and self-loops, then removals in the middle of its lists, try_connects, and finally isolate
+pub fn hub_history(rng: &mut Rng, fl: &str, id: &str) -> Vec<String> {
+    let directed = is_directed(fl);
+    let nspokes = 6 + rng.below(10);
+    let n = nspokes + 1;
+    let mut l = vec![format!("case {fl} {id}")];
+    for k in 0..n {
+        l.push(format!("new {k} {}", rng.below(3)));
+    }
+    let deg = [20, 35, 70, 150][rng.below(4)];
+    // how the edges are split between the hub's two lists: even, or nearly all in one of them (one list past 64 / 128)
+    let split = [5, 9, 1][rng.below(3)];
+    let mut edges: Vec<(usize, usize)> = vec![];
+    for i in 0..deg {
+        let s = 1 + rng.below(nspokes);
+        let r = rng.below(20);
+        let (u, v) = if r == 0 { (0, 0) } else if r % 10 < split { (0, s) } else { (s, 0) };
+        l.push(format!("connect {u} {v} {}", i % 4));
+        edges.push((u, v));
+    }
+    l.push("dump".into());
+    for _ in 0..12 + rng.below(20) {
+        let s = 1 + rng.below(nspokes);
+        match rng.below(8) {
+            0 | 1 => l.push(format!("disconnect 0 {s}")),
+            2 | 3 => l.push(format!("disconnect {s} 0")),
+            4 => l.push(format!("try_connect 0 {s} 9")),
+            5 => l.push(format!("try_connect {s} 0 8")),
+            6 => l.push(format!("isolate {s}")),
+            _ => l.push(format!("connect {} {} 7", if directed { 0 } else { s }, if directed { s } else { 0 })),
+        }
+        l.push("dump".into());
+        if rng.chance(20) {
+            l.push(format!("obs {}", if rng.chance(50) { 0 } else { s }));
+            l.push(format!("q 0 {s}"));
+        }
+    }
+    l.push("isolate 0".into());
+    l.push("dump".into());
+    l
+}
+
